@@ -252,6 +252,22 @@ pub fn run(rep: &Report) {
         // arbitrary u-coordinates (may be on the twist)
         points.push((format!("arbitrary-u-{}", i), derive32(seed, &format!("c19-u-{}", i))));
     }
+    // neighbours of the small-order points: every encoding that agrees with one of them except in ONE byte (all 255 other
+    // values of byte 31, and of byte 0), i.e. valid points that a sloppy blacklist comparison would catch
+    {
+        let sp = special_points();
+        for (name, b) in sp.iter().filter(|(n, _)| n.starts_with("small-order-") && !n.ends_with("bit255")) {
+            for pos in [0usize, 31] {
+                for v in 0..=255u8 {
+                    if v != b[pos] {
+                        let mut u = *b;
+                        u[pos] = v;
+                        points.push((format!("{}-byte{}={:02x}", name, pos, v), u));
+                    }
+                }
+            }
+        }
+    }
     for (kn_, k) in &scalars {
         for (un, u) in &points {
             x25519_case(rep, kn_, k, un, u);
@@ -327,6 +343,36 @@ pub fn run(rep: &Report) {
         ("64", derive(seed, "salt", 64), derive(seed, "ikm", 64), derive(seed, "info", 64)),
         ("100", derive(seed, "salt", 100), derive(seed, "ikm", 100), derive(seed, "info", 100)),
     ];
+    // length x fill grid for each of the three inputs (block boundaries of HMAC: 63/64/65, 127/128/129), other inputs short
+    {
+        let mut grid: Vec<(String, Vec<u8>, Vec<u8>, Vec<u8>)> = vec![];
+        for which in 0..3usize {
+            for fill in [0x00u8, 0xff, 0x36, 0x5c] {
+                for l in [0usize, 1, 31, 32, 33, 55, 56, 63, 64, 65, 66, 100, 127, 128, 129, 200] {
+                    let v = vec![fill; l];
+                    let (mut salt, mut ikm, mut info) = (derive(seed, "gsalt", 8), derive(seed, "gikm", 16), derive(seed, "ginfo", 4));
+                    match which {
+                        0 => salt = v,
+                        1 => ikm = v,
+                        _ => info = v,
+                    }
+                    grid.push((format!("grid-{}-{:02x}-{}", ["salt", "ikm", "info"][which], fill, l), salt, ikm, info));
+                }
+            }
+        }
+        grid.par_iter().for_each(|(name, salt, ikm, info)| {
+            for l in [1usize, 32, 33, 64, 100] {
+                rep.eval(1);
+                let want = r::hkdf_sha256(salt, ikm, info, l);
+                match guarded(|| kc::hkdf_sha256(salt, ikm, info, l)) {
+                    Ok(got) if got == want => {}
+                    Ok(_) => rep.violation("hkdf-differs", json!({"kind":"hkdf","shape":name,"len":l,"salt":hx(salt),"ikm":hx(ikm),"info":hx(info)}), format!("HKDF output differs from RFC 5869 ({}, len {})", name, l)),
+                    Err(p) => rep.violation("hkdf-panic", json!({"kind":"hkdf","shape":name,"len":l,"salt":hx(salt),"ikm":hx(ikm),"info":hx(info)}), format!("HKDF panicked ({}, len {}): {}", name, l, p)),
+                }
+                rep.nontrivial(format!("hkdf-{}-{}", name, l).as_bytes());
+            }
+        });
+    }
     let lens: Vec<usize> = (1..=8160).collect();
     for (name, salt, ikm, info) in &shapes {
         // one long derivation is the prefix-closed reference for all lengths
